@@ -2324,6 +2324,8 @@ class EvalExceptionFormatter:
         self.current_func: str | None = None
         self.current_code_list: list[str] | None = None
         self.current_filename: str | None = None
+        self.current_ctx: AstEval | None = None
+        self.func_entered: bool = False
         self.last_eval_frame: traceback.FrameSummary | None = None
         self.lineno: int = 1
         self.col_offset: int = 0
@@ -2372,6 +2374,7 @@ class EvalExceptionFormatter:
                         self.current_func = eval_func.get_name()
                         self.current_code_list = eval_func.code_list
                         self.current_filename = eval_func.global_ctx.get_file_path()
+                        self.func_entered = True
                 elif code.co_qualname == AstEval.call_func.__qualname__ and self.current_func is None:
                     self.current_func = frame.f_locals.get("func_name", None)
                 elif code.co_qualname == AstEval.parse.__qualname__ and isinstance(self.exc, SyntaxError):
@@ -2386,6 +2389,15 @@ class EvalExceptionFormatter:
                     return
                 elif code.co_qualname in [AstEval.aeval.__qualname__, AstEval.recurse_assign.__qualname__]:
                     ctx = frame.f_locals.get("self")
+                    if ctx is not self.current_ctx:
+                        if self.current_ctx is not None and not self.func_entered:
+                            # another evaluator that was not entered through a function call: the body
+                            # of a file that is being loaded (an import); its frames belong to that file
+                            self.current_func = None
+                            self.current_filename = None
+                            self.current_code_list = None
+                        self.current_ctx = ctx
+                    self.func_entered = False
                     if not self.current_filename:
                         self.current_filename = ctx.global_ctx.get_file_path() or ctx.filename
                     if not self.current_code_list:
